@@ -16,6 +16,7 @@ GENERATORS = [
     ("gen_cli", "generate", "GenCli.v"),
     ("gen_wrappers", "generate", "GenWrappers.v"),
     ("gen_shapes", "generate", "GenShapes.v"),
+    ("gen_constraints", "generate", "GenConstraints.v"),
 ]
 
 
